@@ -537,13 +537,14 @@ def decoder_rules(run, r1, r2, f, aug):
     else:
         run.instance(r1, "decode_dispatch_data: never reads an entry the encoder did not emit (class with an empty v-table)", where(lp), ok=True)
     # multi-method predicate in the dispatch-table decoding loop
-    ml = [n for n in astq.walk(body) if n.get("k") == "IfStmt" and arity_truth(n["cond"], True) is not None and any(x.get("k") == "WhileStmt" for x in astq.walk(n["then"]))]
+    LK = ("WhileStmt", "ForStmt", "DoStmt")
+    ml = [n for n in astq.walk(body) if n.get("k") == "IfStmt" and arity_truth(n["cond"], True) is not None and any(x.get("k") in LK for x in astq.walk(n["then"]))]
     okm = len(ml) == 1 and arity_truth(ml[0]["cond"], True) == (False, True, True)
     run.instance(r1, "decode_dispatch_data: dispatch tables are decoded for multi-methods only", where(ml[0]) if ml else where(body), ok=okm)
     if not okm:
         run.violation(r1, "decode_dispatch_data|dtbls-skip", "the dispatch-table decoding loop does not select exactly the multi-methods", where(ml[0]) if ml else where(body))
     if ml:
-        w = [x for x in astq.walk(ml[0]["then"]) if x.get("k") == "WhileStmt"][0]
+        w = [x for x in astq.walk(ml[0]["then"]) if x.get("k") in LK][0]
         okw = any(x.get("k") == "DeclRefExpr" and x["ref"]["name"].endswith("stop_bit") for x in astq.walk(w["body"]))
         run.instance(r2, "decode_dispatch_data: dispatch-table decoding ends on stop_bit", where(w), ok=okw)
         if not okw:
